@@ -66,6 +66,8 @@ class CompressedFileHandler(FileHandler):
                 self.entry.realencoding = self.entry.encoding
                 self.entry.encoding = None
                 self.entry.type = self.entry.guesstype()
+                # The size on disk is not the size of what we will send.
+                self.entry.size = None
         return self.entry
 
     def initdecompressors(self) -> None:
